@@ -144,6 +144,7 @@ type workReq struct {
 	Budget int            `json:"budget"`
 	Params map[string]int `json:"params"`
 	Wit    int            `json:"wit"`
+	Deadline int64        `json:"deadline"`
 	Quit   bool           `json:"quit"`
 }
 
@@ -229,7 +230,7 @@ func workerMain(args []string) {
 				}
 			}()
 			res := m.Explore(repoMod+"/"+req.Pkg, req.Fn, solver, interp.ExploreOpts{
-				Start: start, MaxPaths: req.Budget, Params: req.Params, Witnesses: req.Wit,
+				Start: start, MaxPaths: req.Budget, Params: req.Params, Witnesses: req.Wit, Deadline: time.Unix(req.Deadline, 0),
 				MaxConc: spec.MaxConc, MaxInstr: spec.MaxInstr,
 			})
 			for _, p := range res.Pending {
@@ -470,6 +471,22 @@ func checkMain(args []string) {
 	cond := sync.NewCond(&mu)
 	active := 0
 	timedOut := false
+	// watchdog: a work item that overruns the budget (slow solver queries) is cut off
+	watchdog := time.AfterFunc(time.Until(deadline)+25*time.Second, func() {
+		mu.Lock()
+		for _, r := range results {
+			if len(r.Inconcl) < 3 {
+				r.Inconcl = append(r.Inconcl, "time budget exhausted inside a work item (slow solver queries); workers stopped")
+			}
+			r.Stats.Inconclusive++
+			break
+		}
+		mu.Unlock()
+		for _, w := range workers {
+			w.cmd.Process.Kill()
+		}
+	})
+	defer watchdog.Stop()
 	var wg sync.WaitGroup
 	for _, w := range workers {
 		wg.Add(1)
@@ -526,7 +543,7 @@ func checkMain(args []string) {
 				if 3*len(batch) > budget {
 					budget = 3 * len(batch)
 				}
-				rsp, err := w.do(workReq{Pkg: r.Entry.Pkg, Fn: r.Entry.Fn, Start: batch, Budget: budget, Params: r.Params, Wit: wit})
+				rsp, err := w.do(workReq{Pkg: r.Entry.Pkg, Fn: r.Entry.Fn, Start: batch, Budget: budget, Params: r.Params, Wit: wit, Deadline: deadline.Unix()})
 				mu.Lock()
 				active--
 				if err != nil || rsp.Err != "" {
